@@ -109,3 +109,28 @@ Example conc_ghost_slot :
   let '(s, ths) := crun (cinit 1 [[CAdd 1]; [CAdd 2]; [CAdd 1]]) [0; 0; 1; 1; 2; 2; 1; 2]%nat in
   (sh_keys s, sh_list s, in_flight ths) = ([], [1], 0%nat).
 Proof. vm_compute. auto. Qed.
+
+(* the bound and no_leak_concurrent DEPEND on the order of Add's sections (map write first, then
+   lru.Add).  With the order swapped -- lru.Add(k) (+ callback), then ipCache[k] = elem -- two adders and
+   capacity 1 reach a quiescent state with 2 verdicts stored, one of them unknown to the recency list:
+   it can never be evicted or cleared (both go through the list) and Lookup still serves it. *)
+Definition sw_lru_add (k : N) (s : shared) : shared * option N :=
+  let '(l', ev) := lru_touch k (sh_list s) (sh_cap s) in (mkSh (sh_keys s) l' (sh_cap s), ev).
+Definition sw_callback (ev : option N) (s : shared) : shared :=
+  match ev with Some e => mkSh (lremove e (sh_keys s)) (sh_list s) (sh_cap s) | None => s end.
+Definition sw_map_write (k : N) (s : shared) : shared := mkSh (kadd k (sh_keys s)) (sh_list s) (sh_cap s).
+Example swapped_order_leaks :
+  let s0 := mkSh [] [] 1 in
+  let '(s1, evA) := sw_lru_add 1 s0 in            (* A: lru.Add(1) *)
+  let s2 := sw_callback evA s1 in
+  let '(s3, evB) := sw_lru_add 2 s2 in            (* B: lru.Add(2) evicts 1 ... *)
+  let s4 := sw_callback evB s3 in                 (* ... the callback finds nothing to delete *)
+  let s5 := sw_map_write 2 s4 in                  (* B: ipCache[2] = elem *)
+  let s6 := sw_map_write 1 s5 in                  (* A: ipCache[1] = elem  -- too late *)
+  evB = Some 1 /\ sh_keys s6 = [1; 2] /\ sh_list s6 = [2] /\ (sh_cap s6 < N.of_nat (length (sh_keys s6))).
+Proof. vm_compute. repeat split; reflexivity. Qed.
+(* the same six sections in the REAL order (map write before lru.Add) end within the bound *)
+Example real_order_same_schedule :
+  let '(s, ths) := crun (cinit 1 [[CAdd 1]; [CAdd 2]]) [0; 1; 0; 1; 1; 0]%nat in
+  (length (sh_keys s) <= 1)%nat /\ in_flight ths = 0%nat /\ (forall x, In x (sh_keys s) -> In x (sh_list s)).
+Proof. vm_compute. split; [constructor|split; [reflexivity|intros x [<-|[]]; left; reflexivity]]. Qed.
